@@ -27,6 +27,8 @@ Record tcfg := mkTcfg {
   enter_restart_at_end : bool;      (* enter_hex_*_mode: lexer_starting_pos += lexer.span().end *)
   invalid_covers_lexer_span : bool; (* INVALID_UTF8(Span::from(lexer.span())) (false: start..start+1) *)
   unknown_bumps : bool;             (* lexer.bump(unexpected.len().saturating_sub(lexer.span().len())) *)
+  unknown_covers_ws_char : bool;    (* an empty prefix (the text starts with a whitespace character the lexer
+                                       does not know) is replaced by that whole character *)
   id_invalid_utf8 : N;
   id_unknown : N }.
 
@@ -113,6 +115,10 @@ Definition unexpected_token (st : tstate) : ttok * tstate :=
        else mkTTok (id_invalid_utf8 cfg) (t_lsp st + t_s st) (t_lsp st + t_s st + 1), st)
   | _ =>
       let u := ws_prefix_len (firstn v rem) in
+      let u := match u with
+               | O => if unknown_covers_ws_char cfg
+                      then Nat.min (match rem with b0 :: _ => width b0 | [] => O end) v else O
+               | _ => u end in
       let st' := if unknown_bumps cfg
                  then mkTState (t_mode st) (t_lsp st) (t_s st) (t_e st + (u - (t_e st - t_s st)))
                  else st in
